@@ -503,6 +503,33 @@ func exec(line string) hx.Result {
 		case p[0] == "v" && len(p) == 1:
 			val.Clean()
 			o = "-"
+		case p[0] == "y" && len(p) == 3:
+			tx := getTx(p[1])
+			start, err := strconv.ParseUint(p[2], 10, 32)
+			if tx == nil || err != nil {
+				return hx.Result{Out: "bad-op"}
+			}
+			b, e := val.BlockRange()
+			verr := val.Verify(tx, uint32(start), make(map[common.Address]uint64))
+			switch {
+			case verr == nil:
+				o = "ok"
+				// predicate: an accepted transaction is in no window block from `start` on (the window is chain[b..e))
+				for h := uint32(start); h >= b && h < e && int(h) < len(st.chain); h++ {
+					for _, t := range st.chain[h] {
+						if t.Hash() == tx.Hash() {
+							fail("verify-accepts-tx-in-window", fmt.Sprintf("Verify(%s, %d) accepted a transaction of window block %d", p[1], start, h))
+						}
+					}
+				}
+			case strings.HasPrefix(verr.Error(), "can not do increment validation"):
+				o = "base"
+			case strings.HasPrefix(verr.Error(), "tx duplicated"):
+				o = "dup"
+				fl["filtered-dup"] = true
+			default:
+				o = "nonce"
+			}
 		default:
 			return hx.Result{Out: "bad-op"}
 		}
